@@ -7,28 +7,174 @@ open SpsdkVerif SpsdkVerif.Misc SpsdkVerif.Generated
 open SpsdkVerif.Spec
 open SpsdkVerif.Spec.HabRom (bindE chk sub rdN u8at u16be u32be u32le RCmd)
 
+theorem size_mod4 (c : Cmd) : c.size % 4 = 0 := by
+  cases c with
+  | insKey => simp [Cmd.size]
+  | autDat fl key sf eng cfg loc bl => simp [Cmd.size]; omega
+  | set => simp [Cmd.size]
+  | unlock e f uid => simp only [Cmd.size]; split <;> decide
+  | nop => simp [Cmd.size]
+
+theorem cmdsSize_mod4 (l : List CsfCmd) : cmdsSize l % 4 = 0 := by
+  induction l with
+  | nil => rfl
+  | cons c r ih => have := size_mod4 c.cmd; simp only [cmdsSize]; omega
+
+theorem csfHdrLen_mod4 (l : List CsfCmd) : csfHdrLen l % 4 = 0 := by
+  have := cmdsSize_mod4 l; unfold csfHdrLen; omega
+
+theorem padAlign4_length_mod (d : Bytes) : (padAlign d 4).length % 4 = 0 := by
+  rw [padAlign_length _ _ (by decide)]; exact alignUp_mod _ _
+
+/-- every data block of `assignLocs cur l` inside `pre ++ encData l ++ post` (`pre.length = cur`) -/
+theorem located (l : List CsfCmd) (cur : Nat) (pre post full : Bytes) (hp : pre.length = cur) (h4 : cur % 4 = 0)
+    (hfull : full = pre ++ encData l ++ post)
+    (hw : ∀ c ∈ l, needsRef c.cmd = true → ∃ d, c.data = some d) :
+    ∀ c ∈ assignLocs cur l, needsRef c.cmd = true → ∀ d, c.data = some d →
+      slice full c.cmd.loc d.length = d ∧ cur ≤ c.cmd.loc ∧ c.cmd.loc % 4 = 0 ∧
+      c.cmd.loc + d.length ≤ cur + (encData l).length := by
+  induction l generalizing cur pre with
+  | nil => intro c hc; simp [assignLocs] at hc
+  | cons a r ih =>
+    have hwr := fun c (hc : c ∈ r) => hw c (by simp [hc])
+    by_cases hr : needsRef a.cmd = true
+    · obtain ⟨d0, hd0⟩ := hw a (by simp) hr
+      have hlen : (encData (a :: r)).length = alignUp d0.length 4 + (encData r).length := by
+        simp [encData, hr, hd0, padAlign_length _ _ (show 0 < 4 by decide)]
+      have hfull' : full = (pre ++ padAlign d0 4) ++ encData r ++ post := by
+        rw [hfull]; simp [encData, hr, hd0]
+      have hge := alignUp_ge d0.length 4 (by decide)
+      have ih' := ih (cur + alignUp d0.length 4) (pre ++ padAlign d0 4)
+        (by rw [List.length_append, padAlign_length _ _ (by decide), hp])
+        (by have := alignUp_mod d0.length 4; omega) hfull' hwr
+      intro c hc hrc d hd
+      simp only [assignLocs, hr, hd0, ↓reduceIte, List.mem_cons] at hc
+      rcases hc with hc | hc
+      · subst hc
+        have hloc : (a.cmd.setLoc cur).loc = cur := loc_setLoc _ _ hr
+        have hdd : d = d0 := by
+          have : some d0 = some d := hd
+          injection this with this; exact this.symm
+        subst hdd
+        simp only [hloc]
+        refine ⟨?_, Nat.le_refl _, h4, by rw [hlen]; omega⟩
+        rw [hfull]
+        have : pre ++ encData (a :: r) ++ post = pre ++ d ++ (zeros (alignUp d.length 4 - d.length) ++ encData r ++ post) := by
+          simp [encData, hr, hd0, padAlign, List.append_assoc]
+        rw [this]
+        exact slice_append_mid' _ _ _ _ _ hp.symm rfl
+      · obtain ⟨h1, h2, h3, h5⟩ := ih' c hc hrc d hd
+        exact ⟨h1, by omega, h3, by rw [hlen]; omega⟩
+    · have hr' : needsRef a.cmd = false := by simpa using hr
+      have hlen : (encData (a :: r)).length = (encData r).length := by simp [encData, hr']
+      have hfull' : full = pre ++ encData r ++ post := by rw [hfull]; simp [encData, hr']
+      have ih' := ih cur pre hp h4 hfull' hwr
+      intro c hc hrc d hd
+      simp only [assignLocs, hr', Bool.false_eq_true, ↓reduceIte, List.mem_cons] at hc
+      rcases hc with hc | hc
+      · subst hc; rw [hr'] at hrc; cases hrc
+      · rw [hlen]; exact ih' c hc hrc d hd
+
 /-- the data block of a command sits at the assigned location -/
 theorem blob_at_loc (version : Nat) (cmds : List CsfCmd) (h : CsfWF version cmds) (c : CsfCmd)
     (hc : c ∈ assignLocs (csfHdrLen cmds) cmds) (hr : needsRef c.cmd = true) (d : Bytes) (hd : c.data = some d) :
     slice (csfBytes version cmds) c.cmd.loc d.length = d ∧ csfHdrLen cmds ≤ c.cmd.loc ∧ c.cmd.loc % 4 = 0 ∧
     c.cmd.loc + d.length ≤ HabConsts.csfSize := by
-  sorry
+  obtain ⟨_, hw, hfit⟩ := h
+  have hlen := csfBase_length version cmds
+  have e1 : csfBytes version cmds = csfBase version cmds ++ encData cmds ++
+      zeros (alignUp (csfBase version cmds ++ encData cmds).length HabConsts.csfSize - (csfBase version cmds ++ encData cmds).length) := by
+    unfold csfBytes padAlign; rfl
+  obtain ⟨h1, h2, h3, h5⟩ := located cmds (csfHdrLen cmds) (csfBase version cmds) _ _ hlen (csfHdrLen_mod4 cmds) e1
+    (fun c hc hrc => by obtain ⟨d, hd, _⟩ := (hw c hc).2.1 hrc; exact ⟨d, hd⟩) c hc hr d hd
+  refine ⟨h1, h2, h3, ?_⟩
+  rw [List.length_append, hlen] at hfit
+  omega
 
 /-- … so the reader's `dataRef` accepts it when the block carries the expected tag -/
 theorem dataRef_located (version : Nat) (cmds : List CsfCmd) (h : CsfWF version cmds) (c : CsfCmd)
     (hc : c ∈ assignLocs (csfHdrLen cmds) cmds) (hr : needsRef c.cmd = true) (d : Bytes) (hd : c.data = some d)
     (t p : Nat) (body : Bytes) (ht : t < 256) (hp : p < 256) (he : d = hdr t d.length p ++ body) (what : String) :
     HabRom.dataRef (csfBytes version cmds) (csfHdrLen cmds) c.cmd.loc t what = .ok (c.cmd.loc, d.length) := by
-  sorry
+  obtain ⟨h1, h2, h3, h5⟩ := blob_at_loc version cmds h c hc hr d hd
+  have hcl := csfBytes_length version cmds h
+  have e8 : HabConsts.csfSize = 8192 := rfl
+  have hd4 : 4 ≤ d.length := by
+    have := congrArg List.length he
+    simp at this; omega
+  have e' : d = u8 t :: u8 (d.length / 256 % 256) :: u8 (d.length % 256) :: u8 p :: body := by
+    conv => lhs; rw [he]
+    simp [hdr, be16_eq]
+  have r1 : u8at (csfBytes version cmds) c.cmd.loc = .ok t := by
+    apply u8at_of_slice _ _ _ ht
+    have := slice_slice (csfBytes version cmds) c.cmd.loc d.length 0 1 (by omega)
+    rw [h1] at this
+    rw [Nat.add_zero] at this
+    rw [← this, e']; rfl
+  have r2 : u16be (csfBytes version cmds) (c.cmd.loc + 1) = .ok d.length := by
+    apply u16be_of_slice _ _ _ (by omega)
+    have := slice_slice (csfBytes version cmds) c.cmd.loc d.length 1 2 (by omega)
+    rw [h1] at this
+    rw [← this, be16_eq]
+    conv => lhs; rw [e']
+    rfl
+  unfold HabRom.dataRef
+  rw [chk_of _ _ _ (by simpa using h2), chk_of _ _ _ (by simp [h3]), r1, bindE_ok, r2, bindE_ok,
+    chk_of _ _ _ (by simp), chk_of _ _ _ (by simp [hcl, e8]; omega)]
+
+/-- references of `assignLocs cur l`: ascending, each inside `[cur, cur + encData length)` -/
+theorem refsOf_assign (l : List CsfCmd) (cur : Nat) :
+    (refsOf (assignLocs cur l)).Pairwise (fun a b => a.1 + a.2 ≤ b.1) ∧
+    ∀ x ∈ refsOf (assignLocs cur l), cur ≤ x.1 ∧ x.1 + x.2 ≤ cur + (encData l).length := by
+  induction l generalizing cur with
+  | nil => simp [assignLocs, refsOf]
+  | cons a r ih =>
+    by_cases hr : needsRef a.cmd = true
+    · cases hd : a.data with
+      | none =>
+        obtain ⟨p, q⟩ := ih cur
+        simp only [assignLocs, hr, hd, ↓reduceIte, refsOf, needsRef_setLoc, List.nil_append, encData]
+        exact ⟨p, by simpa using q⟩
+      | some d =>
+        obtain ⟨p, q⟩ := ih (cur + alignUp d.length 4)
+        have hge := alignUp_ge d.length 4 (by decide)
+        have hl : (encData (a :: r)).length = alignUp d.length 4 + (encData r).length := by
+          simp [encData, hr, hd, padAlign_length _ _ (show 0 < 4 by decide)]
+        simp only [assignLocs, hr, hd, ↓reduceIte, refsOf, needsRef_setLoc, loc_setLoc _ _ hr, List.singleton_append]
+        refine ⟨List.pairwise_cons.2 ⟨fun x hx => ?_, p⟩, fun x hx => ?_⟩
+        · have := q x hx; simp only; omega
+        · rcases List.mem_cons.1 hx with hx | hx
+          · subst hx; simp only; rw [hl]; omega
+          · have := q x hx; rw [hl]; omega
+    · have hr' : needsRef a.cmd = false := by simpa using hr
+      obtain ⟨p, q⟩ := ih cur
+      simp only [assignLocs, hr', Bool.false_eq_true, ↓reduceIte, refsOf, List.nil_append, encData]
+      exact ⟨p, by simpa using q⟩
 
 /-- the data references ascend without overlap -/
 theorem refsOf_ascending (version : Nat) (cmds : List CsfCmd) (h : CsfWF version cmds) :
-    (refsOf (assignLocs (csfHdrLen cmds) cmds)).Pairwise (fun a b => a.1 + a.2 ≤ b.1) := by
-  sorry
+    (refsOf (assignLocs (csfHdrLen cmds) cmds)).Pairwise (fun a b => a.1 + a.2 ≤ b.1) :=
+  (refsOf_assign cmds (csfHdrLen cmds)).1
+
+theorem disjoint_of_sym (l : List (Nat × Nat)) (h : l.Pairwise (fun a b => a.1 + a.2 ≤ b.1 ∨ b.1 + b.2 ≤ a.1)) :
+    HabRom.disjoint l = true := by
+  induction l with
+  | nil => rfl
+  | cons x r ih =>
+    obtain ⟨a, l⟩ := x
+    obtain ⟨h1, h2⟩ := List.pairwise_cons.1 h
+    simp only [HabRom.disjoint, Bool.and_eq_true, List.all_eq_true]
+    refine ⟨fun y hy => ?_, ih h2⟩
+    obtain ⟨b, m⟩ := y
+    have := h1 (b, m) hy
+    simp only at this ⊢
+    rcases this with t | t <;> simp [t]
 
 /-- ascending without overlap, collected in reverse (as the reader's walk does), passes the reader's `disjoint` -/
 theorem disjoint_reverse_of_ascending (l : List (Nat × Nat)) (h : l.Pairwise (fun a b => a.1 + a.2 ≤ b.1)) :
     HabRom.disjoint l.reverse = true := by
-  sorry
+  apply disjoint_of_sym
+  rw [List.pairwise_reverse]
+  exact h.imp (fun hab => Or.inr hab)
 
 end SpsdkVerif.Hab
